@@ -28,6 +28,17 @@ def translate(top, P, placeholder=False):
     return "rejected:" + type(ex).__name__
   path = top.get_metadata(P.translated_filename)
   h = sha(path)
+  if placeholder:
+    # every module name of the emitted text (pickled sources and wrappers included) stands for one body
+    import re
+    text = open(path).read()
+    bodies = {}
+    for m in re.finditer(r"^[ \t]*module[ \t]+([A-Za-z_][A-Za-z_0-9$]*)(.*?)^[ \t]*endmodule", text, re.S | re.M):
+      bodies.setdefault(m.group(1), set()).add(" ".join(m.group(2).split()))
+    dup = sorted(n for n, b in bodies.items() if len(b) > 1)
+    if dup:
+      os.remove(path)
+      return "dup:" + ",".join(dup)
   os.remove(path)
   return h
 
